@@ -708,9 +708,9 @@ def check(run):
     run.prove(extra_targets=["theories/Base/Util.vo", "theories/Model/Report.vo", "theories/Model/Time.vo", "theories/Model/Json.vo",
                              "theories/Model/Xml.vo", "theories/gen/TablesCodec.vo", "theories/Model/CodecFile.vo"])
     quick = run.tier == "quick"
-    n_reports = 260 if quick else 12000
-    n_tree = 120 if quick else 3000
-    n_mut = 150 if quick else 4000
+    n_reports = 260 if quick else 6000
+    n_tree = 120 if quick else 1500
+    n_mut = 150 if quick else 2000
     workdir = tempfile.mkdtemp(prefix="lccverif_c09_")
     feats = {}
     tree_cases, file_cases, mut_cases = [], [], []
